@@ -47,6 +47,9 @@ def nm(n):
     raise DumpError('name of type %s' % type(n))
 
 
+ALIAS_BROKEN = False
+
+
 def ptrk(t):
     flags = [s(t.is_shared_ptr), s(t.is_ptr), s(t.is_ref)]
     on = [f for f in flags if f != '']
@@ -66,12 +69,14 @@ def ty(t):
         return ['ty', typename(t.typename), b(t.is_const), ptrk(t), t.is_basic]
     if type(t) is TemplatedType:
         tn = t.typename
-        # the model derives typename.instantiations from the parameters: check the aliasing
-        if len(tn.instantiations) != len(t.template_params):
-            raise DumpError('TemplatedType params/instantiations length')
-        for i, p in zip(tn.instantiations, t.template_params):
-            if i is not p.typename:
-                raise DumpError('TemplatedType instantiations do not alias the params')
+        # the model derives typename.instantiations from the parameters.  When the implementation stops sharing the
+        # Typename objects between the two (they are written through one and printed through the other), the tree is
+        # dumped as to_cpp() prints it - from template_params - so that the correspondence goes on and shows, on a
+        # concrete input, what the generators now emit (an aborted dump would only say that the tie is broken).
+        global ALIAS_BROKEN
+        if len(tn.instantiations) != len(t.template_params) or \
+                any(i is not p.typename for i, p in zip(tn.instantiations, t.template_params)):
+            ALIAS_BROKEN = True
         return ['tt', [s(n) for n in tn.namespaces], nm(tn.name),
                 [ty(p) for p in t.template_params], b(t.is_const), ptrk(t)]
     raise DumpError('type node %s' % type(t))
